@@ -50,7 +50,7 @@ def registry_appends():
     for prop in ALL_PROPS:
         try:
             m = importlib.import_module("units." + prop)
-        except ModuleNotFoundError:
+        except Exception:
             continue
         if hasattr(m, "harness_modules"):
             reg += m.harness_modules()
@@ -85,7 +85,8 @@ def baseline_harness_files(current_prop):
             continue
         try:
             m = importlib.import_module("units." + prop)
-        except ModuleNotFoundError:
+        except Exception as e:   # a broken unit module must not take the other checks down
+            print("NOTE: unit module %s could not be imported: %r" % (prop, e))
             continue
         if not hasattr(m, "harness_modules"):
             continue
